@@ -1,3 +1,4 @@
+import Noodles.Props.C16Query
 import Noodles.Props.C16More
 import Noodles.Props.C16Formats
 import Noodles.Bgzf.AsyncReader
